@@ -110,9 +110,15 @@ SliceMism(e) ==
              \cup (IF k \notin {"icmp4", "icmp6"} /\ e.slice.re # Canon(k, b) THEN {"slice.value"} ELSE {}))
   ELSE (IF e.slice.k = "ok" THEN {"slice.accepted"} ELSE IF e.slice.k \notin (CF(k, b) \cup {"len"}) THEN {"slice.reason:" \o e.slice.k} ELSE {})
 
+\* <<layer, required, available, source, offset>> of two length errors about the same bytes: same layer, same bytes available, same source,
+\* same offset; "required" is A number of bytes the layer really needs (C07): the minimal header, the first two bytes, or the length the
+\* header announces once its length byte was seen - the two decoders may name different ones, on the same side of `available`
+LenReportDiffers(s, r) == s[1] # r[1] \/ s[3] # r[3] \/ s[4] # r[4] \/ s[5] # r[5] \/ (r[2] > r[3]) # (s[2] > s[3])
+
 ReadMism(e) ==
   LET k == e.type  b == e.bytes IN
-  IF k = "iph" THEN IphReadMism(e) ELSE
+  \* a length error of the reader (a length field that ends inside a header) carries the same report as the slice decoder's on the same bytes
+  IF k = "iph" THEN IphReadMism(e) \cup (IF IphComparable(e.bytes) /\ Len(e.slen) = 5 /\ Len(e.rlen) = 5 /\ LenReportDiffers(e.slen, e.rlen) THEN {"read.len_error_fields"} ELSE {}) ELSE
   IF k \in {"ext4", "ext6"} THEN ExtReadMism(e) ELSE
   IF TsLong(k, b) THEN UNION {LET r == e.reads[i] IN IF r[1] >= 20 THEN (IF r[2] # "ok" \/ r[3] # 20 THEN {"read.timestamp"} ELSE {})
                                                      ELSE (IF r[2] = "ok" THEN {"read.success_despite_fault"} ELSE {}) : i \in 1..Len(e.reads)} ELSE
